@@ -14,7 +14,8 @@ RULE = ("pairs of (default, user) TOML documents emitted from generated nested d
         "inline tables, every scalar type, one-line and multi-line arrays, arrays of inline tables, whole-line and "
         "trailing comments, blank lines, indentation; user documents derived from the default by dropping, changing, "
         "re-typing (scalar<->table) and adding keys; with an existing user file (overlay law + file untouched) and "
-        "without (first-run law, three consecutive loads; defaults restricted to one-line values); non-trivial = the "
+        "without (first-run law, three consecutive loads; defaults restricted to one-line values); a third of the cases reuse "
+        "the previous case's default text with a different user file; non-trivial = the "
         "documents share a key whose values differ, or a table nested >= 2 deep; signature = (mode, syntax features "
         "used, overlap classes: overridden scalar / merged table / type change / user-only / default-only, max depth)")
 ASSUMPTIONS = ["tomllib (stdlib) is the reference TOML reader; documents it rejects are discarded by the generator",
@@ -22,6 +23,7 @@ ASSUMPTIONS = ["tomllib (stdlib) is the reference TOML reader; documents it reje
                "no arrays of tables), as the statement says"]
 
 _n = [0]
+_LAST = {}
 
 
 def plan(tier):
@@ -271,8 +273,14 @@ def gen_case(rng, ctx):
     for _ in range(50):
         first_run = rng.random() < 0.3
         dfeats, ufeats = set(), set()
-        ddoc = gen_doc(rng, rng.choice([1, 2, 2, 3]), one_line=first_run)
-        dtext = emit(rng, ddoc, dfeats)
+        if _LAST and rng.random() < 0.35 and (not first_run or _LAST["one_line"]):
+            # the SAME default text as in the previous load of this process, with another user file (or none): whatever
+            # the library remembers about a default document must not carry one user's values into the next load
+            ddoc, dtext = _LAST["ddoc"], _LAST["dtext"]
+            dfeats.add("same-defaults-as-previous-load")
+        else:
+            ddoc = gen_doc(rng, rng.choice([1, 2, 2, 3]), one_line=first_run)
+            dtext = emit(rng, ddoc, dfeats)
         utext = None
         if not first_run:
             udoc = derive_user(rng, ddoc, 3) if rng.random() < 0.85 else gen_doc(rng, 2, False)
@@ -288,6 +296,7 @@ def gen_case(rng, ctx):
         except tomllib.TOMLDecodeError:
             ctx.count("generator_rejects")
             continue
+        _LAST.update(ddoc=ddoc, dtext=dtext, one_line=first_run or _LAST.get("one_line", False) and dtext == _LAST.get("dtext"))
         return dict(default=dtext, user=utext, feats=sorted(dfeats | ufeats))
     raise RuntimeError("emitter keeps producing invalid TOML")
 
